@@ -5,6 +5,7 @@ from scipy.sparse import issparse
 
 from skglm.solvers.base import BaseSolver
 from skglm.utils.validation import check_group_compatible
+from skglm import _verif
 
 
 EPS_TOL = 0.3
@@ -68,6 +69,9 @@ class GroupProxNewton(BaseSolver):
         all_groups = np.arange(n_groups)
         stop_crit = 0.
         p_objs_out = []
+        if _verif.ON:
+            _verif.emit("init", solver=self, X=X, y=y, datafit=datafit,
+                        penalty=penalty, w=w, Xw=Xw)
 
         for iter in range(self.max_iter):
             grad = _construct_grad(X, y, w, Xw, datafit, all_groups)
@@ -84,6 +88,8 @@ class GroupProxNewton(BaseSolver):
                 intercept_opt = 0.
 
             stop_crit = max(stop_crit, intercept_opt)
+            if _verif.ON:
+                _verif.emit("outer", t=iter, stop_crit=stop_crit, w=w, Xw=Xw)
 
             if self.verbose:
                 p_obj = datafit.value(y, w, Xw) + penalty.value(w)
@@ -100,6 +106,8 @@ class GroupProxNewton(BaseSolver):
             ws_size = max(min(self.p0, n_groups),
                           min(n_groups, 2 * gsupp_size))
             ws = np.argpartition(opt, -ws_size)[-ws_size:]  # k-largest items (no sort)
+            if _verif.ON:
+                _verif.emit("ws", t=iter, ws=ws)
 
             grad_ws = _slice_array(grad, ws, grp_ptr, grp_indices)
             tol_in = EPS_TOL * stop_crit
@@ -115,6 +123,8 @@ class GroupProxNewton(BaseSolver):
                 grad_ws[:] = _backtrack_line_search(
                     X, y, w, Xw, fit_intercept, datafit, penalty,
                     delta_w_ws, X_delta_w_ws, ws)
+                if _verif.ON:
+                    _verif.emit("epoch", t=iter, epoch=pn_iter, w=w, Xw=Xw)
 
                 # check convergence
                 opt_in = penalty.subdiff_distance(w, grad_ws, ws)
@@ -128,6 +138,9 @@ class GroupProxNewton(BaseSolver):
                     intercept_opt_in = 0.
 
                 stop_crit_in = max(stop_crit_in, intercept_opt_in)
+                if _verif.ON:
+                    _verif.emit("inner", t=iter, epoch=pn_iter,
+                                stop_crit_in=stop_crit_in)
 
                 if max(self.verbose-1, 0):
                     p_obj = datafit.value(y, w, Xw) + penalty.value(w[:n_features])
@@ -143,6 +156,8 @@ class GroupProxNewton(BaseSolver):
 
             p_obj = datafit.value(y, w, Xw) + penalty.value(w[:n_features])
             p_objs_out.append(p_obj)
+            if _verif.ON:
+                _verif.emit("record", t=iter, p_obj=p_obj, w=w, Xw=Xw)
         return w, np.asarray(p_objs_out), stop_crit
 
     def custom_checks(self, X, y, datafit, penalty):
